@@ -135,6 +135,15 @@ def string_doc(s, lit=None):
             "    QTabWidget { QWidget { id: page; QTabWidget.title: %s; QTabWidget.toolTip: qsTr(%s) } }\n  }\n}\n") % ((l,) * 9)
 
 
+# one string position per document: a character XML 1.0 cannot carry is diagnosed at EVERY position (or the form is still well-formed)
+POSITIONS = ['windowTitle: %s', 'toolTip: qsTr(%s)', 'windowIcon.name: %s', 'QVBoxLayout { QComboBox { model: [%s, "x"] } }', 'QVBoxLayout { QListWidget { model: [qsTr(%s)] } }',
+             'QLabel { pixmap: %s }', 'QLabel { text: "p" + %s }', 'QTabWidget { QWidget { QTabWidget.title: %s } }', 'QTabWidget { QWidget { QTabWidget.toolTip: qsTr(%s) } }',
+             'QTabWidget { QWidget { QTabWidget.whatsThis: %s } }', 'QTabWidget { QWidget { QTabWidget.icon.name: %s } }', 'QTabWidget { QWidget { QTabWidget.icon.normalOff: %s } }',
+             'QLabel { font.family: %s }', 'QPushButton { icon.name: %s }', 'QPushButton { shortcut: %s }', 'QLabel { statusTip: %s; whatsThis: %s }', 'QAction { text: %s }',
+             'QAction { shortcut: %s }', 'QMenu { title: %s }', 'QLineEdit { placeholderText: %s; inputMask: %s }', 'QGroupBox { title: %s }', 'QLabel { styleSheet: %s; accessibleName: %s }',
+             'QTableView { horizontalHeader.toolTip: %s }', 'QToolBox { QWidget { windowTitle: %s } }', 'QLabel { cursor: Qt.ArrowCursor; objectName: %s }']
+
+
 def read_strings(ui_xml):
     """the strings read back at the positions of string_doc, via expat"""
     got = {}
@@ -282,6 +291,21 @@ def run(chk):
         back.append((i, q.get("src") or q["files"]["Doc.qml"], ui))
         chk.count({"ui": ui}, nontrivial=any(x in ui for x in ("<layout", "<action", "<item", "<spacer", "<attribute")))
     # string documents: well-formedness and grammar are judged by the same recogniser, read-back below
+    preqs = []
+    for what, sv in NON_XML:
+        for pos in POSITIONS:
+            lit = js_literal(sv)
+            preqs.append({"id": "p%d" % len(preqs), "src": "import qmluic.QtWidgets\nQWidget {\n  %s\n}\n" % pos.replace("%s", lit), "type_name": "Doc", "modes": ["generate"], "_what": what, "_pos": pos})
+    pout = translate([{k: v for k, v in q.items() if not k.startswith("_")} for q in preqs])
+    for q in preqs:
+        run_ = pout[q["id"]]["generate"]
+        chk.count({"nonxml_at": q["_pos"], "s": q["_what"]}, nontrivial=True)
+        if run_.get("panic") or not run_.get("ui") or run_.get("n_errors"):
+            continue        # diagnosed (or another error at this position): nothing is written
+        try:
+            xml.parsers.expat.ParserCreate().Parse(run_["ui"], True)
+        except xml.parsers.expat.ExpatError as e:
+            chk.violation("a character XML 1.0 cannot carry (%s) at `%s` is accepted and the form is not well-formed: %s" % (q["_what"], q["_pos"], e), {"qml": q["src"], "ui": run_["ui"]})
     sreqs = [{"id": "s%d" % n, "src": string_doc(x[1], x[2] if len(x) > 2 else None), "type_name": "Doc", "modes": ["generate"]} for n, x in enumerate(STRINGS + NON_XML)]
     sout = translate(sreqs)
     for n, (what, s) in enumerate([x[:2] for x in STRINGS + NON_XML]):
